@@ -161,10 +161,16 @@ static double stepSize(Config const& c, OptBase& o, Trace& t){
 		RealMatrix const& C = m.covarianceMatrix();
 		for(std::size_t i = 0; i != C.size1(); ++i) for(std::size_t j = 0; j != i; ++j)
 			if(!sameBits(C(i,j), C(j,i))){
-				// the two triangles are computed by different BLAS code paths: symmetric up to rounding
-				// relative to the scale sqrt(C_ii C_jj) of the entry
+				// the two triangles are not computed by bit-symmetric operations (remora evaluates w*outer_prod(a,b)
+				// as outer_prod(w*a,b)); the asymmetry is never corrected and drifts: relative differences above 1e-12
+				// were observed after ~100 generations: the absolute asymmetry stays around 1e-19..1e-21 while C itself
+				// shrinks by 12 orders of magnitude (see findings_proposed/C11.md).  Tolerance: 1e-9 of sqrt(C_ii C_jj)
+				// plus 1e-16 absolute (the initial covariance is the identity).
 				double sc = std::sqrt(std::fabs(C(i,i)) * std::fabs(C(j,j)));
-				if(!(std::fabs(C(i,j) - C(j,i)) <= 1e-12 * sc)) fail(t, "covariance-not-symmetric");
+				if(!(std::fabs(C(i,j) - C(j,i)) <= 1e-9 * sc + 1e-16)){
+					std::ostringstream os; os << "covariance-not-symmetric Cij=" << C(i,j) << " Cji=" << C(j,i) << " Cii=" << C(i,i) << " Cjj=" << C(j,j) << " step=" << t.pts.size();
+					fail(t, os.str());
+				}
 			}
 		if(!cholesky(C)) fail(t, "covariance-not-positive-definite");
 		return m.sigma();
@@ -262,7 +268,12 @@ int main(){
 				for(int phi = 1; phi <= 3; ++phi){
 					Trace c = runOnce(cfg, *f, phi, seed, steps, x0);
 					bool same = c.pts.size() == a.pts.size();
-					for(std::size_t s = 0; same && s != a.pts.size(); ++s) same = sameVec(a.pts[s], c.pts[s]) && sameBits(a.sig[s], c.sig[s]);
+					// the rescalings are exact (and hence exactly order preserving) only away from underflow:
+					// the comparison stops once a reported value drops below 1e-200 in modulus
+					for(std::size_t s = 0; same && s != a.pts.size(); ++s){
+						if(std::fabs(a.vals[s]) < 1e-200) break;
+						same = sameVec(a.pts[s], c.pts[s]) && sameBits(a.sig[s], c.sig[s]);
+					}
 					if(!same){ out << " !oracle not-rank-invariant phi=" << phi; break; }
 				}
 				if(!(a.vals.back() <= target)) out << " !oracle not-converged " << a.vals.back();
